@@ -52,6 +52,18 @@ Theorem to_boolean_sound :
 Proof. exact to_boolean_sound_all. Qed.
 Print Assumptions to_boolean_sound.
 
+(* CheckEqualityIfNoSideEffects on two literals (also inlined enum constants)
+   answers what IsStrictlyEqual / IsLooselyEqual compute on their values: -0 == 0,
+   NaN != NaN, null == undefined, true == 1, ... (two bigint literals are compared
+   textually by the code: not covered) *)
+Theorem check_equality_sound :
+  forall l r strict eq x y,
+    lit_value l = Some x -> lit_value r = Some y -> both_bigint l r = false ->
+    check_equality l r strict = (eq, true) ->
+    (if strict then strict_eq x y else spec_loose_eq x y) = Some eq.
+Proof. exact check_equality_sound_all. Qed.
+Print Assumptions check_equality_sound.
+
 (* REFUTED (DESIGN 7-B): the special cases of math.Pow used by BinOpPow folding
    are not those of Number::exponentiate: witness 1 ** NaN *)
 Theorem fold_pow_special_cases_refuted :
